@@ -24,4 +24,8 @@ PROPS = {
                 bound={"quick": 2, "thorough": 3}, budget={"quick": 120, "thorough": 900},
                 assumptions=E1_ASSUME,
                 explanation="real fAdapterTransport + monitorRunner + BaseFTransportMonitor over an in-memory stream; every cut offset x fault kind of a two-frame stream, 2-session failure histories, reopen answers, policies MaxReopenAttempts 0..2, user lifecycle scripts; all schedules up to the deviation bound"),
+    "C17": dict(run=e1.run, replay=e1.replay, harnesses=["ctx"], level="model_checking",
+                bound={}, budget={"quick": 120, "thorough": 900},
+                assumptions=E1_ASSUME,
+                explanation="(i) 2-3 threads creating contexts by every route (NewFContext, Clone(ctx), ctx.Clone(), Clone of a foreign FContext, ReadRequestHeader), all interleavings unbounded: op ids pairwise distinct; (ii) 2-3 threads running every operation pair / selected length-2 sequences on one shared FContext, all interleavings unbounded: brute-force linearizability against a three-map model, returned maps and clones mutated to expose aliasing; (iii) every mutation sequence of length 3 (4) on original and clone after cloning by each route, differential against reference maps"),
 }
